@@ -189,7 +189,13 @@ def check(run: Run) -> None:
         elif alt == "prop_filter":
             kid = specs.ctx("prop_filter", extra.get("text", "key:val"))
         elif alt == "desc_filter":
-            kid = specs.ctx("desc_filter", extra.get("text", SeqStr(("'",) + idtext.parts + ("'",))))
+            q = extra.get("quote", "'")
+            quoted = SeqStr((q,) + idtext.parts + (q,))
+            kids = {"s_desc_filter" if q == "'" else "d_desc_filter": specs.ctx("s_desc_filter" if q == "'" else "d_desc_filter", quoted)}
+            if extra.get("neg"):
+                kids["not_op"] = specs.ctx("not_op", "!")
+            pre = (("!",) if extra.get("neg") else ()) + (("c",) if extra.get("cs") else ())
+            kid = specs.ctx("desc_filter", SeqStr(pre + quoted.parts), **kids)
         elif alt == "file_filter":
             kid = specs.ctx("file_filter", extra.get("text", SeqStr(("f", "=") + idtext.parts)))
         elif alt == "link_filter":
@@ -401,6 +407,25 @@ def check(run: Run) -> None:
                 ok = isinstance(start, Term) and start.head == "from_date_spec" and ((end is None) if not tail else (isinstance(end, Term) and end.head == "from_date_spec" and end != start))
             run.check("C04.R3", f"a range {'with' if tail else 'without'} tail has end = {'the tail date' if tail else 'None'}", ok, "_get_date_range", f"tail={tail}: {[s.obj(r).fields for r in rs] if rs else rs}"[:160],
                       f"a date range {'with' if tail else 'without'} ':end' compiles to {[s.obj(r).fields for r in rs] if rs else rs}"[:300], file=FILE)
+
+    # ------------------------------------------------------------------ R4 text-filter prefix table:  [!][c]'text' | [!][c]"text"
+    DO = _enum(I, model, "DescOperator")
+    n_df = 0
+    for q in ("'", '"'):
+        for neg in (False, True):
+            for cs in (False, True):
+                spelled = ("!" if neg else "") + ("c" if cs else "") + q + "text" + q
+                for f, s in one_atom("desc_filter", quote=q, neg=neg, cs=cs):
+                    n_df += 1
+                    dfs = f.get("desc_filters", [])
+                    flds = s.obj(dfs[0]).fields if len(dfs) == 1 and isinstance(dfs[0], Ref) else {}
+                    got_cs = flds.get("case_sensitive")
+                    ok = flds.get("value") == idtext and flds.get("op") == DO["NOT_CONTAINS" if neg else "CONTAINS"] and ((got_cs is True) if cs else (got_cs in (None, False)))
+                    run.check("C04.R4", f"`{spelled}` -> text as written, {'NOT_CONTAINS' if neg else 'CONTAINS'}, case_sensitive={'True' if cs else 'unset'}", ok, "_get_desc_filter",
+                              f"{spelled} -> {({k: str(v) for k, v in flds.items()})}"[:200],
+                              f"the text filter `{spelled}` compiles to {({k: str(v) for k, v in flds.items()})}: expected the text between the quotes, "
+                              f"{'NOT_CONTAINS' if neg else 'CONTAINS'} and case_sensitive {'True' if cs else 'None'}", file=FILE)
+    run.floor("text-filter spellings evaluated", n_df, 8)
 
     # ------------------------------------------------------------------ R4 property atoms
     PO, PV = _enum(I, model, "PropertyOperator"), _enum(I, model, "PropertyValueType")
